@@ -37,6 +37,74 @@ var unicodeLowerSummaryOK = func() bool {
 	return true
 }()
 
+// pfOverflowConcrete: the criterion parseFloatOverflows branches on, as a pure
+// function; pfCriterionOK checks it against strconv.ParseFloat when the engine
+// starts (boundary literals and a deterministic sample of mantissa/exponent pairs).
+func pfOverflowConcrete(mant uint64, exp int64, bits int) bool {
+	limit, prefix := int64(309), uint64(1797693134862315808)
+	if bits == 32 {
+		limit, prefix = 39, 3402823567797336617
+	}
+	if mant == 0 {
+		return false
+	}
+	d := int64(len(strconv.FormatUint(mant, 10)))
+	switch {
+	case d+exp > limit:
+		return true
+	case d+exp < limit:
+		return false
+	case d > 19:
+		return true
+	}
+	scale := uint64(1)
+	for i := d; i < 19; i++ {
+		scale *= 10
+	}
+	return mant*scale >= prefix
+}
+
+var pfCriterionOK = func() bool {
+	check := func(mant uint64, exp int64, bits int) bool {
+		_, err := strconv.ParseFloat(strconv.FormatUint(mant, 10)+"e"+strconv.FormatInt(exp, 10), bits)
+		return (err != nil) == pfOverflowConcrete(mant, exp, bits)
+	}
+	x := uint64(88172645463325252)
+	for i := 0; i < 40000; i++ {
+		x ^= x << 13
+		x ^= x >> 7
+		x ^= x << 17
+		mant := x
+		for k := uint(0); k < uint(x>>60); k++ {
+			mant /= 10
+		}
+		if mant >= 10000000000000000000 {
+			mant /= 10 // readFloat keeps at most 19 digits
+		}
+		d := int64(len(strconv.FormatUint(mant, 10)))
+		for _, bits := range []int{64, 32} {
+			lim := int64(309)
+			if bits == 32 {
+				lim = 39
+			}
+			for _, e := range []int64{lim - d - 1, lim - d, lim - d + 1, int64(x>>40)%700 - 350} {
+				if !check(mant, e, bits) {
+					return false
+				}
+			}
+		}
+	}
+	for _, m := range []uint64{1797693134862315807, 1797693134862315808, 17976931348623157, 17976931348623158, 17976931348623159, 179769313486231580, 179769313486231581, 2, 1, 9,
+		3402823567797336616, 3402823567797336617, 34028235, 34028236, 340282356, 340282357} {
+		for e := int64(-30); e <= 330; e++ {
+			if !check(m, e, 64) || !check(m, e, 32) {
+				return false
+			}
+		}
+	}
+	return true
+}()
+
 type intrinsic func(st *State, fn *ssa.Function, args []Value) Value
 
 const rtPkg = "github.com/goccy/go-json/internal/runtime."
@@ -777,11 +845,77 @@ func intrinsics() map[string]intrinsic {
 		okT := st.c.BAnd(tm(r[6]), st.c.Eq(tm(r[5]), st.c.Const(uint64(n), 64)))
 		if st.branch(okT, "parsefloat-ok") {
 			val := st.c.UF("parsefloat", 64, tm(r[0]), tm(r[1]), st.c.B2BV(tm(r[2]), 8))
+			// range error (the value rounds to ±Inf): decided exactly from mantissa and decimal
+			// exponent for mantissas of up to 19 digits (not truncated, not hexadecimal)
+			if st.parseFloatOverflows(tm(r[0]), tm(r[1]), tm(r[3]), tm(r[4]), st.concreteInt(tm(args[1]), "bitSize")) {
+				return Agg{val, st.opaqueError("strconv.ParseFloat: value out of range")}
+			}
 			return Agg{val, Agg{st.zero64, st.zero64}}
 		}
 		return Agg{st.zero64, st.opaqueError("strconv.ParseFloat: invalid syntax")}
 	}
 	return m
+}
+
+// parseFloatOverflows decides (by branching) whether mant * 10^exp rounds to
+// infinity in the given float width. With d = number of decimal digits of mant:
+// the value lies in [10^(d-1+exp), 10^(d+exp)); it overflows iff mant != 0 and
+// either d+exp > L, or d+exp == L and mant scaled to 19 digits reaches the
+// 19-digit prefix of (MaxFloat + half an ulp), L = 309 (float64) / 39 (float32).
+func (st *State) parseFloatOverflows(mant, exp, trunc, hex *smt.Term, bits int) bool {
+	c := st.c
+	if !pfCriterionOK {
+		st.end("UNSUPPORTED", "strconv.ParseFloat range criterion does not hold for this toolchain")
+	}
+	limit, prefix := int64(309), uint64(1797693134862315808)
+	if bits == 32 {
+		limit, prefix = 39, 3402823567797336617
+	}
+	// cheap exit: the exponent cannot get near the limit
+	_, hiE := urangeD(exp, 0, st.domains)
+	if hiE < uint64(limit-19) {
+		return false
+	}
+	k := func(v int64) *smt.Term { return c.Const(uint64(v), 64) }
+	if !st.branch(c.Slt(k(limit-20), exp), "parsefloat-exp-large") {
+		return false // exp <= limit-20: d+exp <= limit-1
+	}
+	if st.branch(c.BOr(trunc, hex), "parsefloat-trunc-or-hex") {
+		st.end("UNSUPPORTED", "strconv.ParseFloat range test for truncated or hexadecimal mantissa")
+	}
+	if st.branch(c.Eq(mant, k(0)), "parsefloat-zero") {
+		return false
+	}
+	// d: number of decimal digits of mant (1..20)
+	pow := uint64(1)
+	for d := int64(1); d <= 20; d++ {
+		last := d == 20
+		var isD *smt.Term
+		if !last {
+			isD = c.Ult(mant, c.Const(pow*10, 64))
+		}
+		if last || st.branch(isD, "parsefloat-digits") {
+			// d + exp compared with limit
+			sum := c.Add(exp, k(d))
+			if st.branch(c.Slt(k(limit), sum), "parsefloat-above") {
+				return true
+			}
+			if st.branch(c.Slt(sum, k(limit)), "parsefloat-below") {
+				return false
+			}
+			if d > 19 {
+				return true // 20-digit mantissa at the limit decade: >= 10^19 * 10^(limit-20) > max
+			}
+			scale := uint64(1)
+			for i := d; i < 19; i++ {
+				scale *= 10
+			}
+			// mant*scale < 10^19 fits in 64 bits
+			return st.branch(c.Ule(c.Const(prefix, 64), c.Mul(mant, c.Const(scale, 64))), "parsefloat-threshold")
+		}
+		pow *= 10
+	}
+	return false
 }
 
 type slotRef struct{ addr *smt.Term }
